@@ -731,6 +731,7 @@ int iauth_xreply_ok(struct iauth_request *request, const char *service)
     struct iauth_xquery_client *cli;
     void *ptr;
     unsigned int ii;
+    int res = -4;
 
     ptr = &iauth_xquery;
     cli = set_find(&request->data, &ptr);
@@ -746,13 +747,19 @@ int iauth_xreply_ok(struct iauth_request *request, const char *service)
             return 1;
         if ((cli->ref_mask & (1u << ii)) != 0)
             return 0;
-        if ((cli->sent_mask & (1u << ii)) == 0)
-            return -2;
+        if ((cli->sent_mask & (1u << ii)) == 0) {
+            /* Names are matched without regard to case here, so a
+             * retired entry spelled differently may shadow the one
+             * this client was actually sent to: keep looking.
+             */
+            res = -2;
+            continue;
+        }
         /* We got either a "NO" or a "service unlinked" reply. */
         return -3;
     }
 
-    return -4;
+    return res;
 }
 
 void module_destructor(void)
